@@ -166,6 +166,18 @@ Proof. vm_compute. reflexivity. Qed.
 Example frame_inequality_example :
   stack_budget + 16384 * (1 + (Z.of_nat 8 + 1) * runtime_L) + 1048576 < main_stack.
 Proof. vm_compute. reflexivity. Qed.
+(* since the repair 78cfa01 (budget probe on block entry) nested blocks are no longer an
+   unguarded descent of the evaluator: the only descent edges left are the value operations'
+   recursion over nested data.  Removing that probe breaks this obligation. *)
+Example block_nesting_guarded : structural_edges = [] /\ descent_edges = data_edges.
+Proof. vm_compute. split; reflexivity. Qed.
+(* the per-function answers the observation run asks the model for *)
+Example functions_classified :
+  fn_status id_Runtime_eval_function_call = FOffCycle /\ fn_status id_Runtime_exec_stmt = FOffCycle /\
+  fn_status id_Runtime_exec_block_with_flow = FGuard /\
+  fn_status id_Parser_parse_expression = FUnguardedCycle /\ fn_status id_Resolver_check_expr = FUnguardedCycle /\
+  fn_status id_FunctionBuilder_lower_stmt = FUnguardedCycle /\ fn_status id_Value_fmt = FDescentCycle.
+Proof. vm_compute. repeat split; reflexivity. Qed.
 (* the shapes the observation run uses, classified by the model *)
 Example shapes_classified :
   classify_shape [id_Runtime_eval_expr; id_Runtime_eval_function_call; id_Runtime_exec_block_with_flow;
